@@ -209,7 +209,7 @@ pub struct HybState {
     /// sequence numbers assigned by the engine: sequence -> (hash) in submission order
     pub enqueued: Vec<(u64, u64, u64)>,
     /// (task, key) -> version of the last memory eviction notification seen by that task
-    pub last_leave: BTreeMap<(usize, u64), u32>,
+    pub last_leave: BTreeMap<(usize, u64), (u32, u64)>,
     /// hand-offs to the disk tier attributed to versions: (key, version, engine sequence, task)
     pub handoffs: Vec<(u64, u32, u64, u64)>,
     /// event time of each hand-off (parallel to `handoffs`)
@@ -218,6 +218,8 @@ pub struct HybState {
     pub cur_write: Option<(u64, u32)>,
     /// the same for the second foreground client (its keys are disjoint from the first client's)
     pub cur_write_b: Option<(u64, u32)>,
+    /// write-on-insertion policy (capacity evictions hand nothing over then, except disk-only entries)
+    pub woi: bool,
     /// version counter value at the first explicit close() since the last (re)open
     pub close_ver: Option<u32>,
     /// number of device writes issued by the workload proper (C04 / C03: later writes belong to recoveries)
@@ -236,6 +238,12 @@ thread_local! {
     /// the same for the second foreground client (C01: a concurrent client on its own keys), and that client's task
     pub static OP_INV_B: std::cell::Cell<u64> = const { std::cell::Cell::new(0) };
     pub static CLIENT_B_TASK: std::cell::Cell<usize> = const { std::cell::Cell::new(usize::MAX) };
+    /// the task of the first foreground client (the scenario's main task)
+    pub static CLIENT_A_TASK: std::cell::Cell<usize> = const { std::cell::Cell::new(usize::MAX) };
+}
+
+fn is_client_task(task: usize) -> bool {
+    task == CLIENT_A_TASK.with(|c| c.get()) || task == CLIENT_B_TASK.with(|c| c.get())
 }
 
 fn cur_task() -> usize {
@@ -291,12 +299,16 @@ fn on_foyer_event(kind: &'static str, a: u64, b: u64) {
                 let now = hist::now();
                 s.enqueued.push((b, a, now));
                 let task = shuttle::current::get_current_task().map(usize::from).unwrap_or(usize::MAX);
+                // (a background task evicts and hands over in one go; its notifications are never stale)
+                let fresh_after = if is_client_task(task) { op_inv() } else { 0 };
                 let keys: Vec<u64> = s.model.keys().copied().filter(|k| hash_of(hmode, *k) == a).collect();
                 for k in keys {
-                    if let Some(v) = s.last_leave.remove(&(task, k)) {
+                    // (an eviction hands over within the operation that evicted: a notification left over from an
+                    // earlier operation - e.g. an eviction that writes nothing under write-on-insertion - is stale)
+                    if let Some(v) = s.last_leave.remove(&(task, k)).filter(|(_, at)| *at > fresh_after).map(|x| x.0) {
                         s.handoffs.push((k, v, b, task as u64));
                         s.handoff_at.push(now);
-                    } else if let Some((_, cv)) = s.cur_write.filter(|(ck, _)| *ck == k).or(s.cur_write_b.filter(|(ck, _)| *ck == k)) {
+                    } else if let Some((_, cv)) = s.cur_write.filter(|(ck, _)| *ck == k && is_client_task(task)).or(s.cur_write_b.filter(|(ck, _)| *ck == k && is_client_task(task))) {
                         s.handoffs.push((k, cv, b, task as u64));
                         s.handoff_at.push(now);
                     }
@@ -341,9 +353,13 @@ fn on_foyer_event(kind: &'static str, a: u64, b: u64) {
                 let hmode = s.hmode;
                 let now = hist::now();
                 let task = shuttle::current::get_current_task().map(usize::from).unwrap_or(usize::MAX);
+                // (a background task evicts and hands over in one go; its notifications are never stale)
+                let fresh_after = if is_client_task(task) { op_inv() } else { 0 };
                 let keys: Vec<u64> = s.model.keys().copied().filter(|k| hash_of(hmode, *k) == a).collect();
                 for k in keys {
-                    if let Some(v) = s.last_leave.remove(&(task, k)) {
+                    // (an eviction hands over within the operation that evicted: a notification left over from an
+                    // earlier operation - e.g. an eviction that writes nothing under write-on-insertion - is stale)
+                    if let Some(v) = s.last_leave.remove(&(task, k)).filter(|(_, at)| *at > fresh_after).map(|x| x.0) {
                         s.handoffs.push((k, v, u64::MAX, task as u64));
                         s.handoff_at.push(now);
                     }
@@ -379,10 +395,20 @@ impl foyer::EventListener for HybListener {
         };
         hist::ev("mem_leave", r, *key, ver as u64);
         callback_check("listener");
-        let task = shuttle::current::get_current_task().map(usize::from).unwrap_or(usize::MAX);
-        ST.with(|s| {
-            s.borrow_mut().last_leave.insert((task, *key), ver);
-        });
+        // only an eviction is followed by a hand-off to the disk tier (a replaced / removed / cleared copy is not, and
+        // must not be mistaken for the version a following write-on-insertion enqueue of the same key belongs to)
+        if r == 0 {
+            let task = shuttle::current::get_current_task().map(usize::from).unwrap_or(usize::MAX);
+            ST.with(|s| {
+                let mut s = s.borrow_mut();
+                // under write-on-insertion an eviction hands nothing over unless the entry is disk-only (its Evict
+                // notification is the drop of its last handle) or was loaded from a block on probation
+                let disk_only = s.model.get(key).and_then(|m| m.versions.get(&ver)).map(|v| v.loc == 2).unwrap_or(false);
+                if !s.woi || disk_only {
+                    s.last_leave.insert((task, *key), (ver, hist::now()));
+                }
+            });
+        }
     }
 }
 
@@ -630,6 +656,14 @@ pub fn judge(case: &Case, k: u64, bytes: &[u8], via: &str) -> Res {
                     }
                 });
                 shape.push(("current_version_handoff_in_flight", in_gap.unwrap_or(false).to_string()));
+                // (an eviction is notified after the entry has left memory under the shard lock: the notification of
+                // the current version's eviction may come after this lookup; `complete_shapes` looks again afterwards)
+                if let Some(cur) = km.cur {
+                    shape.push(("_k", k.to_string()));
+                    shape.push(("_cur", cur.to_string()));
+                    shape.push(("_read_start", read_start.to_string()));
+                    shape.push(("_reader", client_task.to_string()));
+                }
                 if restarts > 0 && !cheap {
                     shape.push(("sequence_regression_in_a_block", crate::hyboracle::block_has_sequence_regression(case).to_string()));
                 }
@@ -1207,6 +1241,7 @@ pub fn init_state(case: &Case) {
             hmode: case.get("hmode") as u8,
             keys: case.get("keys").max(1) as u64,
             check_locks: case.get("check_locks") != 0,
+            woi: case.get("policy") == 1,
             ..Default::default()
         };
     });
@@ -1226,6 +1261,7 @@ pub fn exec(case: &Case) {
     init_state(case);
     let case = case.clone();
     shuttle::future::block_on(async move {
+        CLIENT_A_TASK.with(|c| c.set(cur_task()));
         let ctl = new_ctl(&case);
         let cache = match open(&case, &ctl).await {
             Ok(c) => c,
@@ -1456,7 +1492,30 @@ async fn concurrent_round(h: &mut Hyb) {
     hist::ev("round_done", 0, 0, 0);
 }
 
+/// Classification aids that need the events after the report: was the current version evicted by another task (its
+/// notification may follow the lookup) while its hand-off had not been enqueued when the lookup started?
+fn complete_shapes() {
+    let evs = hist::events_clone();
+    let (handoffs, handoff_at) = ST.with(|s| {
+        let s = s.borrow();
+        (s.handoffs.clone(), s.handoff_at.clone())
+    });
+    hist::amend_violations(|v| {
+        if v.rule != "stale-value" || v.shape.get("current_version_handoff_in_flight").map(|x| x.as_str()) != Some("false") {
+            return;
+        }
+        let get = |key: &str| v.shape.get(key).and_then(|x| x.parse::<u64>().ok());
+        let (Some(k), Some(cur), Some(read_start), Some(reader)) = (get("_k"), get("_cur"), get("_read_start"), get("_reader")) else { return };
+        let evicted_by_other = evs.iter().any(|e| e.kind == "mem_leave" && e.a == 0 && e.b == k && e.c == cur && e.task as u64 != reader);
+        let handed_before = handoffs.iter().zip(handoff_at.iter()).any(|((hk, hv, hs, _), at)| *hk == k && *hv as u64 == cur && *hs != u64::MAX && *at < read_start);
+        if evicted_by_other && !handed_before {
+            v.shape.insert("current_version_handoff_in_flight".into(), "true".into());
+        }
+    });
+}
+
 pub fn oracle(case: &Case) {
+    complete_shapes();
     crate::hyboracle::post(case);
 }
 
